@@ -535,6 +535,53 @@ func generate() {
 			random(d, nRandom, 120)
 		}
 	}
+	// ---- 8-byte length forms (class 7/8) with every boundary, in every bytes / string field
+	w8 := func(dec string, m []byte, from int) {
+		for _, x := range wide8(m, from) {
+			run(dec, x, "len64")
+		}
+	}
+	for _, m := range bytesValid()[:3] {
+		w8("bytesC", m, 0)
+		w8("bytesS", m, 0)
+	}
+	for _, m := range strlistValid()[1:4] {
+		w8("strlistC", m, 0)
+		w8("strlistS", m, 0)
+	}
+	for i, m := range packetsValid(true) {
+		if i == 1 || i == 2 {
+			w8("pktStream", m, 45)
+		}
+	}
+	for _, name := range resultDecs {
+		for i, m := range resultMsgs(name) {
+			if i == 0 || (i == 1 && (name == "Ls" || name == "Registry" || name == "Mounts" || name == "UserLogins" || name == "ProcessList" || name == "WindowList")) {
+				w8("res:"+name, m.b, 0)
+			}
+		}
+	}
+	{
+		var c data.Chunk
+		machineBytes(&c, devID(3), 1, 1, "bob", "h", "v")
+		w8("machine", payload(&c), 41)
+		var n data.Chunk
+		networkBytes(&n, 2, 1)
+		w8("network", payload(&n), 0)
+		for _, f := range []bool{false, true} {
+			var p data.Chunk
+			proxyBytes(&p, 2, f)
+			d := "proxy:0"
+			if f {
+				d = "proxy:1"
+			}
+			w8(d, payload(&p), 1)
+		}
+		for _, t := range []int{0, 4} {
+			w8("devinfo:"+string(rune('0'+t)), devinfoOne(t, [3]int{1, 1, 1}), 0)
+		}
+		marks = nil
+	}
 	generateMore(false)
 }
 
